@@ -148,6 +148,10 @@ def run_suites(ctx):
             only = rng.choice([0, 1, 2, -1, 5])
         elif mode < 0.65:
             at_level = MAXSIZE
+        elif mode < 0.8:
+            # --only-level overrides --at-level and --all, whatever their value
+            at_level = rng.choice([0, -1, MAXSIZE, 2, -5])
+            only = rng.choice([0, 1, 2, 3])
         pats = rng.choice([["."], ["t1"], ["!t1"], ["t[02468]$"], ["t1", "!t1[0-9]"], ["^t2$", "t3"]])
         cases.append((trees, at_level, only, pats, counter[0]))
     queries = []
@@ -234,6 +238,10 @@ OPTION_VECTORS = [
     ["-f", "--layer", "."], ["-f", "--layer", "!wm"], ["-u", "--layer", "."], ["-u", "--layer", "UnitTests"],
     ["--layer", "wm.L1", "--layer", "!L1"], ["--layer", "wm.L2", "--layer", "!wm"], ["--layer", "wm.L1", "--layer", "wm.L2", "--layer", "!L2"],
     ["--layer", "wm.Store", "--layer", "!Store"], ["--layer", "^wm.L1$"], ["--layer", "wm.L1$", "--layer", "!^wm"],
+    ["--all", "--only-level", "2"], ["--only-level", "2", "--all"], ["-a", "0", "--only-level", "2"],
+    ["--at-level=-1", "--only-level", "3"], ["--only-level", "0"],
+    ["-t", "alpha", "-t", ""], ["-t", ""], ["-t", "", "-t", "!beta"], ["-m", "orders", "-m", ""], ["-t", "a", "-t", "a"],
+    ["-t", "!x", "-t", ""], ["-m", "", "-m", "!stock"], ["-t", "alpha", "-m", "", "-t", "^$"],
 ]
 LAYER_NAME_SETS = [
     [UNIT, "wm.L1", "wm.L2"], ["wm.L1"], [UNIT], ["wm.L2", UNIT, "wm.L1", "other.Layer"], [],
@@ -297,6 +305,8 @@ def run_layers(ctx):
         for i, a in enumerate(args):
             if a == "-a":
                 al = int(args[i + 1])
+            if a.startswith("--at-level="):
+                al = int(a.split("=", 1)[1])
             if a == "--only-level":
                 ol = int(args[i + 1])
         nq.append({"op": "normalize", "all": "--all" in args, "at_level": al, "only_level": ol,
@@ -365,6 +375,21 @@ def run_layers(ctx):
         case = {"args": args, "model": ans, "real": {"at_level": o.at_level, "unit": bool(o.unit),
                                                      "non_unit": bool(o.non_unit), "layer": list(o.layer or [])}}
         ctx.count(("normalize", tuple(args)))
+        # ---- monitor: the patterns and levels the predicates get are the ones given (defaults only when none is given)
+        given = {"-t": [args[i + 1] for i, a in enumerate(args) if a == "-t"],
+                 "-m": [args[i + 1] for i, a in enumerate(args) if a == "-m"]}
+        bad_glue = None
+        for flag, attr in (("-t", "test"), ("-m", "module")):
+            want_p = given[flag] or ["."]
+            if list(getattr(o, attr)) != want_p:
+                bad_glue = "options %r: %s patterns handed to the predicate are %r, given were %r" % (
+                    args, flag, list(getattr(o, attr)), want_p)
+        olv = [int(args[i + 1]) for i, a in enumerate(args) if a == "--only-level"]
+        if olv and o.only_level != olv[-1]:
+            bad_glue = "options %r leave only_level = %r: --only-level %d is not in force" % (args, o.only_level, olv[-1])
+        if bad_glue:
+            ctx.violation(bad_glue, case, signature="option-glue")
+            continue
         # ---- monitor: --all makes every level eligible wherever it stands among the options
         if "--all" in args and o.only_level is None and not (o.at_level <= 0 or o.at_level >= MAXSIZE):
             ctx.violation("options %r leave at_level = %r: --all does not select every level" % (args, o.at_level), case,
